@@ -11,6 +11,7 @@ import (
 	"io"
 	"math"
 	"os"
+	"reflect"
 	"sort"
 	"strconv"
 	"strings"
@@ -35,7 +36,8 @@ type Runner struct {
 	pick     func(waiting []int, k int) int
 	realised []int
 	csvDir   string
-	pf       map[string]bool // strings whose ParseFloat result the model may ask for
+	loader   *dataframe.DataFrame // the receiver a caller keeps for all its FromCSV calls (Alt round trips)
+	pf       map[string]bool      // strings whose ParseFloat result the model may ask for
 	tp       map[[2]string]bool
 }
 
@@ -519,6 +521,17 @@ func (r *Runner) Exec(o Op) (out Out) {
 			if o.K == "tocsv" {
 				return Out{Status: "ok", Val: &Val{K: "bytes", Bytes: BStr(buf.String())}}
 			}
+			if o.Alt {
+				// a caller that keeps one loader object for every file it reads
+				if r.loader == nil {
+					r.loader = dataframe.NewDataFrame()
+				}
+				res, err := r.loader.FromCSV(path)
+				if err == nil && res == r.loader {
+					return Out{Status: "panic", Msg: "FromCSV returned its receiver instead of a new frame"}
+				}
+				return derive(res, err)
+			}
 			return derive(dataframe.NewDataFrame().FromCSV(path))
 		}
 		if err := df.ToCSVWriter(&buf); err != nil {
@@ -834,6 +847,13 @@ func RunHist(tag string, frames []Frame, ops []Op) Hist {
 	r := NewRunner(frames)
 	h := Hist{Tag: tag, Steps: []StepObs{}}
 	h.Pool, _ = r.snapshot()
+	// the model is given the frames that were asked for: where building one through the public constructors changed
+	// a name or a cell, the difference shows as a change of that frame at the first step
+	for i := range frames {
+		if want := Snapshot(buildFrame(frames[i], true)); !reflect.DeepEqual(want, h.Pool[i]) {
+			h.Pool[i] = want
+		}
+	}
 	lastPool, lastNrows := r.snapshot()
 	for _, o := range ops {
 		r.Prep(&o)
